@@ -139,7 +139,9 @@ def processCase (cfg : ParseCfg) (c : Case) : Array String := Id.run do
     | "a" :: id :: _ => some (Ev.alloc (toNat id))
     | "f" :: id :: _ => some (Ev.free (toNat id))
     | _ => none
-  if !trace.isEmpty then
+  -- (the verified checker is quadratic in the number of live blocks: traces beyond 6000 events are
+  -- left to the harness's own bookkeeping, `mem bad=`)
+  if !trace.isEmpty && trace.length ≤ 6000 then
     out := out.v cid 0 "C13" "K" (traceOK trace) s!"alloc/free trace of {trace.length} events"
   -- C09: ops that differ only in lookahead / debug level must have one signature
   let keys := strSet (sigs.toList.map (·.1))
